@@ -209,6 +209,17 @@ impl Ctx {
             }
         }
         src.push(if as_map { '}' } else { ']' });
+        self.big_self_src(&src, &format!("{entries}-entries{}", if multibyte { "-multibyte" } else { "" }), &format!("{entries}/{as_map}/{multibyte}"));
+    }
+
+    /// One long run of two-byte characters behind `pad` ASCII bytes: for pad and pad + 1, every refill
+    /// boundary of a parser falls inside a character in one of the two documents.
+    fn big_self_run(&mut self, pad: usize) {
+        let src = format!("{{\"pad\":\"{}\",\"s\":\"{}\"}}", "x".repeat(pad), "\u{e9}".repeat(20_000));
+        self.big_self_src(&src, &format!("two-byte-run-pad{pad}"), &format!("run/{pad}"));
+    }
+
+    fn big_self_src(&mut self, src: &str, what: &str, key: &str) {
         for f in ["msgpack", "json", "yaml"] {
             let mut out = vec![];
             if xt::translate_slice(src.as_bytes(), Some(xt::Format::Json), fmt_by_name(f).unwrap(), &mut out).is_err() {
@@ -218,22 +229,28 @@ impl Ctx {
             let id = format!("{:016x}:{}", fnv(&bytes), bytes.len());
             let run = detect_once(&bytes, None, None);
             self.rec(json!({"ev": "input", "id": id, "n": bytes.len(), "fault": -1, "mode": "slice", "translates": true,
-                            "label": format!("xt-output/{f}/{entries}-entries{}", if multibyte { "-multibyte" } else { "" }), "hex": "", "sched": ""}));
+                            "label": format!("xt-output/{f}/{what}"), "hex": "", "sched": ""}));
             for r in &run.records {
                 self.rec(r.clone());
             }
             self.rec(json!({"ev": "result", "res": run.answer, "srcerr": run.srcerr}));
-            let reader_answer = match catch(|| xt::verif::detect_reader(SchedReader::new(bytes.clone(), Sched::Fixed(4096), new_log()))) {
-                Ok(Ok(Some(ff))) => fmt_name(ff).to_owned(),
-                Ok(Ok(None)) => "none".to_owned(),
-                _ => "error".to_owned(),
-            };
+            // readers with 4 KiB reads and one that fills whatever buffer it is offered (a file, a full pipe)
+            let mut readers_agree = true;
+            for sc in [Sched::Fixed(4096), Sched::All] {
+                let reader_answer = match catch(|| xt::verif::detect_reader(SchedReader::new(bytes.clone(), sc, new_log()))) {
+                    Ok(Ok(Some(ff))) => fmt_name(ff).to_owned(),
+                    Ok(Ok(None)) => "none".to_owned(),
+                    _ => "error".to_owned(),
+                };
+                readers_agree &= reader_answer == run.answer;
+            }
             let a = xlate(&bytes, &None, None, "json");
             let b = xlate(&bytes, &None, fmt_by_name(f), "json");
-            let same = a.0 == b.0 && a.1 == b.1 && reader_answer == run.answer;
+            let ra = xlate(&bytes, &Some(Sched::All), None, "json");
+            let same = a.0 == b.0 && a.1 == b.1 && readers_agree && ra.0 == a.0 && ra.1 == a.1;
             self.rec(json!({"ev": "self", "id": id, "wrote": f, "collection": true, "detected": run.answer, "same_out": same, "sidecond": true, "text": ""}));
             self.sum.eval();
-            self.sum.nontrivial(format!("big/{f}/{entries}/{as_map}/{multibyte}"));
+            self.sum.nontrivial(format!("big/{f}/{key}"));
         }
     }
 }
@@ -266,12 +283,16 @@ impl Ctx {
             if size >= 2 * 1024 * 1024 {
                 break; // beyond the documented look-ahead of reader detection: only the slice answer is in scope
             }
-            let reader_answer = match catch(|| xt::verif::detect_reader(SchedReader::new(bytes.clone(), sc, new_log()))) {
-                Ok(Ok(Some(ff))) => fmt_name(ff).to_owned(),
-                Ok(Ok(None)) => "none".to_owned(),
-                _ => "error".to_owned(),
-            };
-            same &= reader_answer == run.answer;
+            // the same bytes through a reader, with the handle's events (C09 SameAnswer against the slice answer)
+            let rr = detect_once(&bytes, Some(sc.clone()), None);
+            self.rec(json!({"ev": "input", "id": id, "n": bytes.len(), "fault": -1, "mode": "reader", "translates": true,
+                            "label": format!("big-toml/{size}"), "hex": "", "sched": sc.describe()}));
+            for r in &rr.records {
+                self.rec(r.clone());
+            }
+            self.rec(json!({"ev": "result", "res": rr.answer, "srcerr": rr.srcerr}));
+            self.sum.eval();
+            same &= rr.answer == run.answer;
         }
         self.rec(json!({"ev": "self", "id": id, "wrote": "toml", "collection": true, "detected": run.answer, "same_out": same, "sidecond": true, "text": ""}));
         self.sum.eval();
@@ -321,6 +342,9 @@ pub fn record(out_path: &str, count: u64) {
     for entries in [3000usize, 7001] {
         cx.big_self(entries, true, true);
         cx.big_self(entries, false, true);
+    }
+    for pad in [0usize, 1, 2, 3] {
+        cx.big_self_run(pad);
     }
     // TOML documents around the 1 MiB mark and just below the 2 MiB look-ahead of reader detection
     for size in [1_048_575usize, 1_048_576, 1_500_000, 2_097_151, 2_097_152, 3_000_000] {
